@@ -569,9 +569,12 @@ func (l *commitLog) Truncate(offset int64) error {
 		return nil
 	}
 
-	// Delete all following segments.
+	// Delete all following segments, newest first, so that a crash part-way
+	// through leaves a contiguous log rather than a hole in front of a later
+	// segment (which would make the log end, and so where replication resumes,
+	// lie beyond messages that no longer exist).
 	deleted := 0
-	for i := idx + 1; i < len(l.segments); i++ {
+	for i := len(l.segments) - 1; i > idx; i-- {
 		if err := l.segments[i].Delete(); err != nil {
 			return err
 		}
